@@ -55,7 +55,7 @@ Proof. vm_compute. repeat split. Qed.
    Face-scope classification.  GenScope.v holds the scope-setting statements of every transport constructor of fw/face and the
    switch of defn.URI.Scope(), translated from the source on every run; transport_scope c lb is the scope constructor c
    (numbering in Scope.v) gives a face whose remote address is (lb = true) / is not (lb = false) a loopback IP address. *)
-From Fw Require Import ScopeDefs GenScope Scope.
+From Fw Require Import ScopeDefs GenScope ScopeModel Scope.
 
 (* every constructor classifies as the specification says: IP transports (unicast TCP outgoing and accepted, unicast UDP,
    WebSocket) Local iff the remote address is loopback; Unix stream and internal always Local; multicast UDP and null NonLocal *)
